@@ -539,9 +539,29 @@ func runServer(in input) lib.Case {
 			ms = append(ms, fmt.Sprintf("SNewInstance %d", m.A))
 		}
 	}
-	coq := fmt.Sprintf("ServerClose %s %s (mkSobs %s %d %d %s %d %d %s %s)", lib.NatList(o.Insts), lib.List(ms),
-		lib.Bool(o.Returned), o.Instances, o.Late, lib.Bool(o.Panic), o.OpsPending, o.Goroutines,
-		lib.Bool(o.Ports), lib.Bool(o.Db))
+	sobs := fmt.Sprintf("(mkSobs %s %d %d %s %d %d %s %s)", lib.Bool(o.Returned), o.Instances, o.Late, lib.Bool(o.Panic),
+		o.OpsPending, o.Goroutines, lib.Bool(o.Ports), lib.Bool(o.Db))
+	coq := fmt.Sprintf("ServerClose %s %s %s", lib.NatList(o.Insts), lib.List(ms), sobs)
+	if sv.Barrier > 1 {
+		// the overlapping calls are validated against the k-caller model (Net/CloseConc.v)
+		oks, errs, pending := 0, 0, 0
+		for _, x := range ops {
+			if !strings.HasPrefix(x.name, "close") {
+				continue
+			}
+			select {
+			case <-x.done:
+				if x.res == "ok" {
+					oks++
+				} else {
+					errs++
+				}
+			default:
+				pending++
+			}
+		}
+		coq = fmt.Sprintf("ServerCloseRace %d %d %d %d %d %s", sv.Barrier, len(o.Insts), oks, errs, pending, sobs)
+	}
 	return lib.Case{Coq: coq, Class: serverClass(in), Obs: o, Nontrivial: sv.Runs > 0 || sv.Barrier > 1,
 		Key: fmt.Sprint(in.TCP, *sv)}
 }
